@@ -7,7 +7,7 @@ import scen_state
 import scen_util
 import scen_trace
 
-SHIPPED = ("shipped", "custom", "toyint", "toyed")
+SHIPPED = ("shipped", "custom", "midint", "toyint", "toyed")
 
 
 def std(gen, want=SHIPPED, batch=400):
@@ -43,7 +43,7 @@ def plus_traces(f):
 
 
 REGISTRY = {
-    "C11": std(scen_util.gen_C11, ("shipped", "toyint"), batch=4),
+    "C11": std(scen_util.gen_C11, ("shipped", "midint", "toyint"), batch=4),
     "C17": std(scen_util.gen_C17, ()),
     "C07": std(scen_state.gen_C07, ("shipped", "toyint", "toyed"), batch=3000),
     "C08": plus_traces(std(scen_state.gen_C08)),
@@ -52,9 +52,9 @@ REGISTRY = {
     "C16": std(scen_state.gen_C16, ("shipped", "toyint")),
     "C05": std(scen_group.gen_C05_all),
     "C12": std(scen_group.gen_C12, ("edgen", "toyed")),
-    "C13": std(scen_group.gen_C13_all, ("shipped", "toyint", "toyed")),
-    "C14": std(scen_group.gen_C14, ("shipped", "toyint", "toyed")),
-    "C15": std(scen_group.gen_C15_all, ("shipped", "toyint", "toyed")),
+    "C13": std(scen_group.gen_C13_all, ("shipped", "midint", "toyint", "toyed")),
+    "C14": std(scen_group.gen_C14, ("shipped", "midint", "toyint", "toyed")),
+    "C15": std(scen_group.gen_C15_all, ("shipped", "midint", "toyint", "toyed")),
     "C18": std(scen_group.gen_C18, ("shipped",)),
     "C01": plus_traces(std(scen_proto.gen_C01)),
     "C02": std(scen_proto.gen_C02),
